@@ -29,6 +29,10 @@ func subset(r *rand.Rand, l []string) []string {
 // tokenRequest sends a maketoken with the given value and returns the tokens that
 // appeared in any of the watched groups, and the reply.
 func (w *world) tokenRequest(a *actor, value map[string]any, watch []string) (created []*token.Stateful, reply vclient.Msg, ok bool) {
+	// the whole exchange is atomic with respect to the token operations of other
+	// scenarios (one of the watched groups, "", is shared with them)
+	tokenMu.Lock()
+	defer tokenMu.Unlock()
 	before := map[string]bool{}
 	for _, g := range watch {
 		for n := range tokenNames(g) {
@@ -37,11 +41,8 @@ func (w *world) tokenRequest(a *actor, value map[string]any, watch []string) (cr
 	}
 	from := a.c.EventCount()
 	w.logf("ACTOR %s [holding %v] -> maketoken %v", a.c.ID, a.perms, value)
-	tokenMu.Lock()
 	a.c.Send(vclient.Msg{"type": "groupaction", "kind": "maketoken", "source": a.c.ID, "value": value})
-	pinged := a.c.Ping(20 * time.Second)
-	tokenMu.Unlock()
-	if !pinged {
+	if !a.c.Ping(20 * time.Second) {
 		w.inconclusive("no pong after maketoken")
 		return nil, nil, false
 	}
@@ -634,6 +635,9 @@ func (e *env) runWhip(j job) {
 	w.desc = "(WHIP ingest)"
 	defer w.close()
 	if !w.setup() {
+		return
+	}
+	if !w.quiesce() {
 		return
 	}
 	known := userList(w.obs)
